@@ -22,7 +22,7 @@ def notifications(b):
     return out
 
 
-def window_cmps(prog, fam):
+def window_cmps(prog, fam, _depth=0):
     """normalised comparisons that involve a Window bound: set of (op, field, other) with the field on the left"""
     out = set()
     for x in fam:
@@ -36,6 +36,12 @@ def window_cmps(prog, fam):
                 out.add((G.SWAP[rv["op"]], fb, "t"))
             elif fa and fb:
                 out.add((rv["op"], fa, fb))
+        # a membership test moved into a method of Window (`window.contains(t)`) counts where it is called
+        if _depth < 2:
+            for c in x.calls():
+                y = prog.bodies.get(c.key)
+                if y is not None and y.self_adt == WIN and not y.is_closure:
+                    out |= window_cmps(prog, prog.family(y.key), _depth + 1)
     return out
 
 
@@ -87,6 +93,7 @@ def run(R):
     R.floor("C09-R7", "writes to the window state", nt, 6)
     r3(R)
     r6(R)
+    r8(R)
     bodies = {}
     for nm in INGEST:
         b = R.body("C09-R1", "CSPARQLWindow::%s" % nm, crate="kolibrie")
@@ -487,3 +494,39 @@ def r6(R):
                     found.add("nonempty?")
     R.ob("C09-R6", "arms", "the strategy tests are len > 0 (NonEmptyContent) and t %% period == 0 (Periodic) (found %s)" % sorted(found),
          {"nonempty", "periodic"} <= found, where=rp.where())
+
+
+def r8(R):
+    """window bounds are as wide as timestamps"""
+    prog = R.prog
+    R.rule("C09-R8", "bounds are as wide as the clock: the fields of Window have the integer type of the event time, and no numeric cast in the "
+                     "windowing code targets a type narrower than 64 bits. R3 / R4 take the casts of scope() as value-preserving; a bound stored in "
+                     "(or computed through) 32 bits saturates at 2^32 - millisecond timestamps reach that after 50 days, epoch milliseconds are far "
+                     "beyond - and every later interval collapses into one degenerate window that contains nothing and always counts as closed")
+    adt = prog.adt(WIN)
+    if not R.anchor("C09-R8", "adt Window", adt):
+        return
+    ftys = {f["name"]: f.get("ty") for f in adt["variants"][0]["fields"]}
+    ing = R.body("C09-R8", "CSPARQLWindow::<I>::add_to_window", crate="kolibrie")
+    tty = None
+    if ing is not None:
+        tty = ing.local_ty(ing.nargs)          # the event time is the last parameter
+    WIDE = {"usize", "u64", "i64", "isize", "u128", "i128", "f64"}
+    for fn in ("open", "close"):
+        R.ob("C09-R8", "field:" + fn, "Window.%s has the type of the event time (%s; found %s)" % (fn, tty, ftys.get(fn)),
+             ftys.get(fn) in WIDE and (tty is None or ftys.get(fn) == tty or tty not in WIDE), where=adt["file"])
+    n = 0
+    for b in sorted(prog.bodies.values(), key=lambda x: x.key):
+        if b.crate != "kolibrie" or not b.file.endswith("rsp/s2r.rs") or "::tests::" in b.key:
+            continue
+        for bb, i, pl, rv, st in b.assigns():
+            if rv["rv"] != "cast" or not str(rv.get("kind", "")).startswith(("IntToInt", "FloatToInt", "IntToFloat", "FloatToFloat")):
+                continue
+            n += 1
+            R.saw(b)
+            to = b.local_ty(pl["l"]) if not pl["p"] else (rv.get("ty") or "")
+            ok = to in WIDE
+            if not ok:
+                R.ob("C09-R8", "wide-cast:%s:%s" % (b.short, to), "numeric casts in %s keep 64 bits (found a cast to %s)" % (b.short, to), False, where=b.where(st.get("ln")),
+                     detail="a window bound or a time narrowed to %s is wrong for every timestamp beyond its range" % to)
+    R.ob("C09-R8", "casts", "numeric casts of the windowing code were examined (%d)" % n, n >= 4, where=adt["file"])
